@@ -78,6 +78,10 @@ def endings_for(tree: list[dict[str, Any]]) -> list[dict[str, Any]]:
     for n in tree:
         for phase in ("ctor", "prepare", "start"):
             out.append({"kind": "fail", "path": n["path"], "phase": phase, "exc": "ValueError", "cli": False})
+            if phase == "start":
+                # a component failing with an exception that is no Exception (a library's own BaseException subclass): a start-up
+                # failure like any other
+                out.append({"kind": "fail", "path": n["path"], "phase": phase, "exc": "BaseCustom", "cli": False})
             for sig in ("SIGINT", "SIGTERM"):
                 if phase != "ctor":
                     out.append({"kind": "signal_startup", "path": n["path"], "phase": phase, "sig": sig, "cli": phase == "start" and n["path"] == ""})
@@ -126,8 +130,8 @@ def gen_case(idx: int, seed: int, tier: str) -> Any:
         n["td_prepare"] = rng.randint(1, 3) if rng.random() < 0.8 else 0
         n["td_start"] = rng.randint(1, 3) if rng.random() < 0.8 else 0
         n["ct_start"] = rng.random() < 0.3
-        n["svc_prepare"] = rng.choice([None, None, None, None, "function", "unhashable_object", "builtin"])
-        n["svc_start"] = rng.choice([None, None, None, None, "function", "unhashable_object", "builtin"])
+        n["svc_prepare"] = rng.choice([None, None, None, None, "function", "unhashable_object", "builtin", "raising"])
+        n["svc_start"] = rng.choice([None, None, None, None, "function", "unhashable_object", "builtin", "raising"])
         n["sleep_prepare"] = rng.choice([0, 0.5, 1])
         n["sleep_start"] = rng.choice([0, 0.5, 1])
         n["has_prepare"] = n["td_prepare"] > 0 or bool(n["svc_prepare"]) or rng.random() < 0.5
@@ -273,6 +277,10 @@ class Scenario:
 
                 def stop_action() -> None:
                     sc.log("td-run", stid, form="service-action:" + form)
+                    if form == "raising":
+                        # the stop request itself fails: the service is cancelled instead, and that is all - the teardown goes on
+                        # and the application still ends the documented way
+                        raise RuntimeError("could not ask the service to stop")
                     stop.set()
 
                 action: Any = stop_action
